@@ -344,7 +344,7 @@ fn run_worker(
     let cfg = Config {
         cases: cases as u32,
         failure_persistence: None,
-        max_shrink_iters: 20_000,
+        max_shrink_iters: 4_000,
         max_local_rejects: 1,
         max_global_rejects: 1,
         verbose: 0,
